@@ -139,6 +139,7 @@ func lenOfSame(a, d ssa.Value) bool {
 func rulesC10(c *Ctx) {
 	c.Explain = append(c.Explain,
 		"C10 (no block content can halt block execution) — decided: (a) DIVGUARD: every division on the consensus execution cone (Quantity.Quo, math/big quotient/modulus, integer / and %) has a divisor that is a non-zero constant, is dominated by a zero test on that same value, or is a reviewed table row stating why it cannot be zero; (b) in the multiplexer, a transaction error is turned into a failed result and DeliverTx panics only for unavailable-state errors; CheckTx never panics; decode failures return before any application is called; PrepareProposal/ProcessProposal recover from panics and re-panic only for the upgrade stop; (c) exhaustiveness: every outcome the commitment pool can report is handled by the round-finalisation switch without being returned as an error from EndBlock; (d) explicit panic sites reachable from transaction handlers are inventoried (reported, not armed).",
+		"(round 2) C10.usub: every subtraction of two unsigned values in the packages that run during block execution is dominated by the matching comparison of the same values (or cannot wrap by construction, or is a reviewed row); C10.timeout: every store to RuntimeState.NextTimeout is followed on every success path by rearmRoundTimeout (the round-timeout queue mirrors the field; a stale entry is a fatal EndBlock error); C10.support: debonding delegations are merged only by the state setter (support for the reviewed debonding pay-out row).",
 		"NOT decided (the bulk of the property): that no arithmetic or state combination makes BeginBlock/EndBlock return an error (reward overflow, tally exceeding total stake, election failure — the documented precondition); value-dependent.")
 	g := c.P.CallGraph()
 	entries := abciEntries(c.P, g)
@@ -378,6 +379,7 @@ func rulesC10(c *Ctx) {
 	}
 	c.Info("C10.inventory", "explicit-panics-on-cone", "", itoa(nP)+" explicit panic sites on the execution cone (inventory only; not a pass/fail rule)")
 	c.Extra["panic_sites_on_cone"] = nP
+	rulesC10Round2(c, c.P.BuildIndex())
 }
 
 // quantitySource: the integer a *Quantity divisor was built from
